@@ -289,6 +289,18 @@ fn run_history(ops: &[Op]) -> String {
             }
         }
         let ovar = format!("o{}", k);
+        // the output variable may already hold something - in particular the handle of a live
+        // collection made earlier (`row = range 0 3 ; … ; row = range 10 12`): what a variable
+        // holds before the call is not an input of the command
+        if k > 0 && crate::hash_str(&format!("{}:{}", k, op.cmd)) % 3 == 0 {
+            let j = (crate::hash_str(&op.cmd) as usize + k) % k;
+            if let Some(v) = ctx.variables.get(&format!("o{}", j)).cloned() {
+                if ctx.variables.insert(ovar.clone(), v).is_none() {
+                    expected_vars += 1;
+                }
+            }
+        }
+        let pre = ctx.variables.contains_key(&ovar);
         let (res, _) = run_one(&mut ctx, &op.cmd, args, Some(ovar.clone()));
         match res {
             CommandResult::Continue(Some(v)) => {
@@ -304,21 +316,22 @@ fn run_history(ops: &[Op]) -> String {
                 }
                 outs.push(enc_str(&names.rename(&v)));
                 ctx.variables.insert(ovar, v);
-                expected_vars += 1;
+                if !pre { expected_vars += 1; }
             }
             CommandResult::Continue(None) => {
                 outs.push("-".to_string());
                 ctx.variables.remove(&ovar);
+                if pre { expected_vars -= 1; }
             }
             CommandResult::Error(_) => {
                 outs.push("E".to_string());
                 ctx.variables.insert(ovar, "false".to_string());
-                expected_vars += 1;
+                if !pre { expected_vars += 1; }
             }
             CommandResult::Crash(_) => {
                 outs.push("X".to_string());
                 ctx.variables.insert(ovar, "false".to_string());
-                expected_vars += 1;
+                if !pre { expected_vars += 1; }
             }
             other => outs.push(format!("?{:?}", std::mem::discriminant(&other))),
         }
